@@ -154,7 +154,8 @@ Skip ==
   /\ \/ R.e \in {"envIncoming", "failMux", "close", "disconnect", "behClose", "behCloseAll", "keepAlive", "polled",
                  "cbNewListener", "cbNewListenAddr", "cbExpiredListenAddr", "cbListenerError", "cbListenerClosed",
                  "cbNewExternalAddrCandidate", "cbExternalAddrConfirmed", "cbExternalAddrExpired", "cbNewExternalAddrOfPeer",
-                 "cbAddressChange", "cbHandlerEvent", "hEvent", "hLocalProto", "hRemoteProto", "hAddressChange", "cbOther"}
+                 "cbAddressChange", "cbHandlerEvent", "hEvent", "hLocalProto", "hRemoteProto", "hAddressChange", "cbOther",
+                 "emitQueued", "bEmit", "emitF", "hEmit", "hRequestOut", "hStream"}
      \/ R.e = "swarmEvent" /\ R.kind \notin {"est", "outErr", "inErr", "closed", "incoming"}
      \/ R.e \in {"cbDialFailure", "cbListenFailure", "cbConnEstablished", "cbConnClosed"} /\ ~B1
   /\ UNCHANGED <<bterm, sterm, bclosed, sclosed, q, pend, estPeer, estDir, expect, auth, denied, handed, inDial, syncFail>>
